@@ -1,10 +1,10 @@
 #!/usr/bin/env python3
 """dev helper: apply one-line source mutations to /repo (working tree), run a check, restore.
 usage: tools_mutate.py <Cxx> <file> <<< 'old ==> new' lines (one mutation per line)"""
-import subprocess
+import subprocess, sys, os
 import fcntl
 _REPO_LOCK = open("/verif/build/repo.lock", "w")
-fcntl.flock(_REPO_LOCK, fcntl.LOCK_EX)  # one mutator of /repo at a time, sys, os
+fcntl.flock(_REPO_LOCK, fcntl.LOCK_EX)  # one mutator of /repo at a time
 prop, rel = sys.argv[1], sys.argv[2]
 path = os.path.join("/repo/falcon-rust/src", rel)
 orig = open(path).read()
